@@ -465,10 +465,17 @@ def run_termination(case):
         state = [r.choice([0.0, r.uniform(0.1, 6.0), float(r.randint(0, 4)) + 0.5]) for _ in range(S * ncell)]
     elif fam == "integer":
         state = [float(r.randint(0, 300)) for _ in range(S * ncell)]
+    elif fam == "frozen":
+        state = [float(r.choice([0, 0, r.randint(0, 5)])) for _ in range(S * ncell)]
     else:  # macroscopic
         state = [r.choice([0.0, 10 ** r.uniform(6, 15)]) for _ in range(S * ncell)]
     species = [st.Species(l, D=r.choice([0.0, 1.0]), density=0) for l in labels]
     reactions = [st.Reaction("%s -> %s" % (labels[0], labels[-1]), kf=r.choice([0.0, 0.5]), kr=r.choice([0.0, 0.1]))]
+    if fam == "frozen":
+        # nothing can happen from the start, or after the last few molecules of the reactant are used up (no diffusion,
+        # irreversible or no reaction): a stochastic run has no next event before t_max
+        species = [st.Species(l, D=0.0, density=0) for l in labels]
+        reactions = [st.Reaction("%s -> %s" % (labels[0], labels[-1] if S > 1 else ""), kf=r.choice([0.0, 0.5, 40.0]), kr=0.0)]
     net = st.RDNetwork(species, reactions)
     if r.random() < 0.5:
         space = st.RDGridSpace(w=ncell, h=1, d=1, cell_vol=1.0)
@@ -478,13 +485,21 @@ def run_termination(case):
         space = st.RDGraphSpace(nodes, edges)
     system = st.RDSystem(net, space, state=state)
     dt = 0.01
-    script = st.RDScript(system, t_sample=[0, 0.05], time_step=dt, sampling_policy="on_t_sample",
+    policy = r.choice(["on_t_sample", "on_t_sample", "on_interval", "on_iteration", "no_sampling"])
+    script = st.RDScript(system, t_sample=[0, 0.05], time_step=dt, sampling_policy=policy, sampling_interval=r.choice([0.01, 0.02, 0.5]),
                          rng_seed=r.randrange(2 ** 31), init_state_processing=isp)
     prog = case.get("progress_file")
     if prog:
         with open(prog, "w") as f:
             f.write("setup")
     e = engines.get(kind_)
+    if fam == "frozen" or (fam in ("below-one", "fractional", "integer") and r.random() < 0.3):
+        # the whole-simulation entry point: it returns only when the engine reports completion
+        if prog:
+            with open(prog, "w") as f:
+                f.write("simulate_script (policy %s)" % policy)
+        out = st.simulate_script(script, e)
+        return {"iterations": None, "nsamples": out.nsamples(), "family": fam, "isp": isp, "kind": kind_, "policy": policy}
     e.setup(script)
     if prog:
         with open(prog, "w") as f:
@@ -494,7 +509,7 @@ def run_termination(case):
         its += 1
     out = e.get_output()
     e.finalize()
-    return {"iterations": its, "nsamples": out.nsamples(), "family": fam, "isp": isp, "kind": kind_}
+    return {"iterations": its, "nsamples": out.nsamples(), "family": fam, "isp": isp, "kind": kind_, "policy": policy}
 
 
 def run_extreme_tauleap(case):
@@ -565,13 +580,29 @@ def run_fixed_step_count(case):
     bad, n = [], 0
     for _ in range(case["n"]):
         kind_ = r.choice(["euler", "tauleap"])
-        net = st.RDNetwork([st.Species("A", D=1.0, density=0)], [st.Reaction("A -> ", kf=0.1)])
-        system = st.RDSystem(net, st.RDGridSpace(w=2, h=1, d=1), state=[5, 3])
         dt = 10 ** r.uniform(-4, -1)
         nst = r.randint(0, 400) if r.random() > 0.08 else 0
         tmax = dt * (nst + r.choice([0.0, 0.0, 0.5, r.random()]))        # includes t_max == 0 exactly (one step, then complete)
-        script = st.RDScript(system, t_sample=[0], t_max=tmax, time_step=dt, sampling_policy="no_sampling", rng_seed=1,
-                             init_state_processing="none")
+        kw = {}
+        unit_note = "s (default units)"
+        if r.random() < 0.5:
+            # the same numbers in other time units, under a script whose own time unit differs: steps from femtoseconds
+            # to hours, i.e. from 1e-19 to 1e+9 when expressed in the unit the engine counts in
+            tu = r.choice(["fs", "ps", "ns", "µs", "ms", "s", "min", "h"])
+            su = r.choice(["fs", "ns", "µs", "ms", "s", "min", "h"])
+            kw["units_system"] = st.UnitsSystem(time=su)
+            unit_note = "%s under a script in %s" % (tu, su)
+            dt_arg, tmax_arg = "%r %s" % (dt, tu), "%r %s" % (tmax, tu)
+            dt_si = dt * float(si.TIME[tu])
+        else:
+            dt_arg, tmax_arg = dt, tmax
+            dt_si = dt
+        # rates that keep the step stable whatever its size (k dt = D dt / h^2 = 0.05): an unstable tau-leap step would
+        # grow without bound and end in the known propensity overflow, which is not what this family is about
+        net = st.RDNetwork([st.Species("A", D="%r µm2/s" % (0.05 / dt_si), density=0)], [st.Reaction("A -> ", kf="%r s-1" % (0.05 / dt_si))])
+        system = st.RDSystem(net, st.RDGridSpace(w=2, h=1, d=1), state=[5, 3])
+        script = st.RDScript(system, t_sample=[0], t_max=tmax_arg, time_step=dt_arg, sampling_policy="no_sampling", rng_seed=1,
+                             init_state_processing="none", **kw)
         e = engines.get(kind_)
         e.setup(script)
         its = 0
@@ -585,7 +616,7 @@ def run_fixed_step_count(case):
         want = max(1, math.ceil(tmax / dt))
         if not done or abs(its - want) > 1:
             bad.append({"what": "fixed-step run does not complete after ceil(t_max/dt) +- 1 iterations", "dt": dt, "t_max": tmax,
-                        "iterations": its, "expected": want, "complete": done, "engine": kind_})
+                        "iterations": its, "expected": want, "complete": done, "engine": kind_, "time_units": unit_note})
     return {"bad": bad[:5], "n": n}
 
 
@@ -759,7 +790,7 @@ def main():
         for i in range(nC):
             kind_ = rr.choice(engines.KINDS)
             isp = rr.choice(["auto", "redist", "Poisson", "none"])
-            fam = rr.choice(["below-one", "fractional", "fractional", "integer", "macroscopic"])
+            fam = rr.choice(["below-one", "fractional", "fractional", "integer", "macroscopic", "frozen"])
             casesC.append({"seed": sd, "idx": i, "kind": kind_, "isp": isp, "family": fam,
                            "progress_file": os.path.join(pdir, "C%d" % i)})
         resC = pmap("vf.checks.c10:run_termination", casesC, cpu_budget=10.0, wall_budget=600)
